@@ -289,6 +289,9 @@ def gen_c04(seed, tier):
                 d["issue_instant"] = 0
             if r.chance(0.25):
                 d["audiences"] = []     # Conditions that carry time bounds only, no child element (schema-legal)
+            if r.chance(0.2):
+                # a second bearer confirmation with a window of its own (every one that is present counts)
+                d["second_sc"] = {"nooa": r.pick([-86400, -3600, -3600, life, 2 * life])}
             p["dialect"] = d
             offs = {"cond_nooa": d["cond_nooa"], "cond_nb": d["cond_nb"], "scd_nooa": d["scd_nooa"],
                     "scd_nb": d["scd_nb"], "session": d["session_nooa"]}
@@ -495,7 +498,7 @@ def gen_c05(seed, tier):
                             r"\.%s\.sim\.example/acs/post$" % tenant])
         sps.append(g.add_sp(i, tenant=tenant, allow_unsolicited=g.rl.chance(0.45), dest_regex=rx,
                             wrs=g.rl.chance(0.5), acs2=g.rl.chance(0.3), enc_keys=[6 + 2 * i],
-                            no_redirect_acs=g.rl.chance(0.35)))
+                            no_redirect_acs=g.rl.chance(0.35), acs_artifact=g.rl.chance(0.4)))
     g.draw_skews(choices=(0, 0, 1, -1))
     clean = (seed % 4 == 0)
     g.knobs = {"class": "clean" if clean else "faulty"}
@@ -578,7 +581,7 @@ def gen_c05(seed, tier):
             if r.chance(0.5):
                 g.ev("resp", f=f, r=0, conv=conv, sub=g.sub())
         elif mode == "other-endpoint":
-            via = r.pick(["acs_redirect", "acs_redirect", "acs_post2"])
+            via = r.pick(["acs_redirect", "acs_redirect", "acs_post2", "acs_artifact", "acs_artifact"])
             g.ev("resp", f=f, r=0, via=via, conv=conv, dup=True, sub=g.sub(),
                  reencode=(via == "acs_redirect" and r.chance(0.8)))
         elif mode == "restart":
